@@ -434,6 +434,13 @@ def _bind(gnode, call, is_method):
     need = set(pos + kwonly)
     if set(m) != need:
         raise NotInlineable('unbound parameter')
+    if is_method and (a.posonlyargs + a.args):
+        # self._helper(...) where the helper is a classmethod: its `cls` is reached through the caller's receiver (class attributes and
+        # static / class methods resolve through the instance as well)
+        first = (a.posonlyargs + a.args)[0].arg
+        recv = call.func.value if isinstance(call.func, ast.Attribute) else None
+        if isinstance(recv, ast.Name) and recv.id != first and first not in m:
+            m[first] = recv
     if a.kwarg:
         # f(**kwargs) handed on as helper(**kwargs): the helper's dictionary is the caller's; without one it is empty
         m[a.kwarg.arg] = stars[0].value if stars else ast.Dict(keys=[ast.Constant(value=k.arg) for k in extra], values=[k.value for k in extra])
@@ -1230,6 +1237,8 @@ def unroll_constant_comprehensions(tree):
                     if rows is None:
                         return c
                     tgts = [g.target] if isinstance(g.target, ast.Name) else (list(g.target.elts) if isinstance(g.target, ast.Tuple) else None)
+                    if tgts is not None and len(tgts) > 1 and all(len(r_) == 1 and isinstance(r_[0], (ast.Tuple, ast.List)) and len(r_[0].elts) == len(tgts) for r_ in rows):
+                        rows = [list(r_[0].elts) for r_ in rows]          # a table of rows: `for key, attribute in ((k1, a1), (k2, a2))`
                     if tgts is None or not all(isinstance(t_, ast.Name) for t_ in tgts) or any(len(r_) != len(tgts) for r_ in rows):
                         return c
                     elts = []
@@ -1255,6 +1264,8 @@ def unroll_constant_comprehensions(tree):
                     if rows is None:
                         return c
                     tgts = [g.target] if isinstance(g.target, ast.Name) else (list(g.target.elts) if isinstance(g.target, ast.Tuple) else None)
+                    if tgts is not None and len(tgts) > 1 and all(len(r_) == 1 and isinstance(r_[0], (ast.Tuple, ast.List)) and len(r_[0].elts) == len(tgts) for r_ in rows):
+                        rows = [list(r_[0].elts) for r_ in rows]          # a table of rows: `for key, attribute in ((k1, a1), (k2, a2))`
                     if tgts is None or not all(isinstance(t_, ast.Name) for t_ in tgts) or any(len(r_) != len(tgts) for r_ in rows):
                         return c
                     keys, vals = [], []
@@ -1472,12 +1483,62 @@ def fold_local_tables(tree):
     return count
 
 
+def dict_splat_locals(tree):
+    """`opts = {'seed': seed, 'n': n}` ... `f(x, **opts)`: a local bound once to a display with identifier keys and read only as the
+    `**` argument of one call is written at that call (`f(x, **{...})`, which the spelling pass turns into keywords); the binding goes.
+    Only when nothing between the binding and the call can tell the difference: the binding and the call stand in the same statement
+    list and the display holds plain names / constants / attributes / calls on them."""
+    n_done = 0
+    for fn in [x for x in ast.walk(tree) if isinstance(x, (ast.FunctionDef, ast.AsyncFunctionDef))]:
+        scope = list(_walk_scope(fn))
+        stores = {}
+        for x in scope:
+            if isinstance(x, ast.Assign) and len(x.targets) == 1 and isinstance(x.targets[0], ast.Name):
+                stores.setdefault(x.targets[0].id, []).append(x)
+            elif isinstance(x, (ast.AugAssign, ast.AnnAssign)) and isinstance(x.target, ast.Name):
+                stores.setdefault(x.target.id, []).append(x)
+        for name, asg in stores.items():
+            if len(asg) != 1 or not isinstance(asg[0], ast.Assign) or not isinstance(asg[0].value, ast.Dict):
+                continue
+            d = asg[0].value
+            if not d.keys or not all(isinstance(k, ast.Constant) and isinstance(k.value, str) and k.value.isidentifier() for k in d.keys):
+                continue
+            loads = [x for x in scope if isinstance(x, ast.Name) and x.id == name and isinstance(x.ctx, ast.Load)]
+            other_stores = [x for x in scope if isinstance(x, ast.Name) and x.id == name and not isinstance(x.ctx, ast.Load) and x is not asg[0].targets[0]]
+            if len(loads) != 1 or other_stores:
+                continue
+            calls = [c for c in scope if isinstance(c, ast.Call) and any(k.arg is None and k.value is loads[0] for k in c.keywords)]
+            if len(calls) != 1:
+                continue
+            # the statement list that holds the binding must hold the statement of the call as well
+            def holder(node):
+                for blk_owner in scope + [fn]:
+                    for fld in ('body', 'orelse', 'finalbody'):
+                        blk = getattr(blk_owner, fld, None)
+                        if isinstance(blk, list) and any(node is s_ for s_ in blk):
+                            return blk
+                return None
+            blk = holder(asg[0])
+            if blk is None:
+                continue
+            call_stmt = next((s_ for s_ in blk if any(x is calls[0] for x in ast.walk(s_))), None)
+            if call_stmt is None or blk.index(call_stmt) < blk.index(asg[0]):
+                continue
+            for k in calls[0].keywords:
+                if k.arg is None and k.value is loads[0]:
+                    k.value = d
+            blk.remove(asg[0])
+            n_done += 1
+    return n_done
+
+
 def canonical_local(tree):
     """function-local canonical forms that do not need the reference: comprehensions and loops over small constant sequences are
     written out.  Applied to the reference tree before it is fingerprinted and to the analysed tree before it is compared."""
     n = property_assignments(tree) + dict_displays(tree) + unroll_constant_comprehensions(tree) + unroll_constant_loops(tree)
     n += fold_local_tables(tree)
-    return n + dict_displays(tree)          # a display written out of a comprehension may be completed by the item stores after it
+    n += dict_displays(tree)          # a display written out of a comprehension may be completed by the item stores after it
+    return n + dict_splat_locals(tree)          # a display written out of a comprehension may be completed by the item stores after it
 
 
 def inline_expression_helpers(tree, new):
@@ -1868,6 +1929,9 @@ def apply(prog):
                 prog.normalization['locals_restored'].append(m.name + '.' + q)
         # ---- 3. splice helpers that do not exist in the reference back into their callers
         if new:
+            props = new_properties_to_calls(m.tree, new)
+            if props:
+                prog.normalization.setdefault('properties_as_helpers', {})[m.name] = props
             inl = _Inliner(m.tree, new)
             new_names = {n.name for (n, c, p) in new.values()}
 
@@ -1912,7 +1976,44 @@ def apply(prog):
         n_unrolled = unroll_constant_loops(m.tree)
         if n_unrolled:
             prog.normalization.setdefault('loops_unrolled', {})[m.name] = n_unrolled
+        # a table that was just written back as a local may feed a comprehension: write that out as well
+        n_comp2 = unroll_constant_comprehensions(m.tree)
+        if n_comp2:
+            prog.normalization.setdefault('comprehensions_unrolled', {})[m.name] = prog.normalization.get('comprehensions_unrolled', {}).get(m.name, 0) + n_comp2
+            dict_displays(m.tree)
         ast.fix_missing_locations(m.tree)
+
+
+def new_properties_to_calls(tree, new):
+    """a read-only property the reference does not have (`@property def _region_magnitudes(self)`) is a helper method whose call is
+    spelt as an attribute read: within the methods of its class, `self.<name>` becomes `self.<name>()` and the decorator goes, so that
+    the helper is spliced into its readers like any other new method.  Only when the name has no setter / deleter, is never stored
+    to, and is read through `self` only."""
+    done = []
+    for q, (n, c, p) in list(new.items()):
+        if c is None or p is not None or q.endswith(('.setter', '.deleter')):
+            continue
+        if not (len(n.decorator_list) == 1 and isinstance(n.decorator_list[0], ast.Name) and n.decorator_list[0].id == 'property'):
+            continue
+        name = n.name
+        if any(isinstance(x, (ast.FunctionDef, ast.AsyncFunctionDef)) and x is not n and x.name == name for x in ast.walk(tree)):
+            continue
+        uses = [x for x in ast.walk(tree) if isinstance(x, ast.Attribute) and x.attr == name]
+        inside = {id(x) for x in ast.walk(c)}
+        if not uses or any(not isinstance(x.ctx, ast.Load) or not (isinstance(x.value, ast.Name) and x.value.id == 'self') or id(x) not in inside for x in uses):
+            continue
+        targets = {id(x) for x in uses}
+
+        class R(ast.NodeTransformer):
+            def visit_Attribute(self, a):
+                self.generic_visit(a)
+                if id(a) in targets:
+                    return ast.copy_location(ast.Call(func=a, args=[], keywords=[]), a)
+                return a
+        R().visit(c)
+        n.decorator_list = []
+        done.append(q)
+    return done
 
 
 # ------------------------------------------------------------------------------------------------ spelling variants
